@@ -15,12 +15,12 @@ WARM = []
 RULE = (
     "Cases: a daily or billing meter index at local midnight (or another fixed read hour) x an hourly or half-hourly "
     "temperature feed expressed in the meter's zone, in UTC or in another zone whose offset is a whole number of sampling "
-    "intervals away x integer temperatures x NaN patterns (random cells, blocks, exactly half a day, half +- 1 reading, a whole "
+    "intervals away x integer temperatures x NaN patterns (none at all over 250-368 days; random cells, blocks, exactly half a day, half +- 1 reading, a whole "
     "day; blocks aimed at the 23/25-hour day) x spans containing DST days x frame (merged), from_series, or temperature-only reporting "
     "data (meter None, zone given as tzinfo) entry point. Oracle: data.df.temperature[d] is the mean "
     "of the present readings with d <= t < d + 1 meter day, missing when present/total <= 0.5; with the verification hook the "
     "per-day present/absent counts equal the reference counts. Non-trivial: at least one day with 0 < missing < 50% and at "
-    "least one day with >= 50% missing. Distinct = distinct case descriptions."
+    "least one day with >= 50% missing, or a complete feed over most of a year with a clock change inside (one case in six). Distinct = distinct case descriptions."
 )
 ASSUMPTIONS = [
     "class (iii) of DESIGN.md (meter finer than the feed) is outside the statement's quantifier (daily/billing meter days) and not generated",
@@ -58,9 +58,14 @@ def cases(draw):
         c["blocks"].append((dst_day, draw(st.integers(0, per_day // 2 - 3)), draw(st.sampled_from([per_day // 2 - 2, per_day // 2 - 1, per_day // 2, per_day // 2 + 1]))))
     c["cells"] = draw(st.lists(st.integers(0, c["nd"] * per_day - 1), max_size=10))
     c["zero_days"] = draw(st.lists(st.integers(0, c["nd"] - 1), max_size=3))  # electric meter days reading exactly 0 (usage missing, temperature not)
+    if draw(st.integers(0, 5)) == 0:
+        # a complete feed (not one reading missing) over most of a year: both clock changes of the zone lie inside
+        c["nd"] = draw(st.integers(250, 368))
+        c["d0"] = str((pd.Timestamp("2018-01-01") + pd.Timedelta(days=draw(st.integers(0, 55)))).date())
+        c["blocks"], c["cells"], c["complete_year"] = [], [], True
     if c["family"] == "billing":
         c["read_hour"] = 0
-        c["nd"] = 30 * draw(st.integers(2, 3))  # whole 30-day periods
+        c["nd"] = 30 * (draw(st.integers(2, 3)) if not c.get("complete_year") else draw(st.integers(9, 12)))  # whole 30-day periods
         c["entry"] = "frame"  # the merged-frame convention of the repository's own billing tests
     elif c["read_hour"] == 0 and draw(st.integers(0, 4)) == 0:
         # temperature-only reporting data: no meter, the local zone is given as tzinfo
@@ -100,7 +105,7 @@ def judge(c, rec):
     tz = c["tz"]
     rng = np.random.default_rng(c["vseed"] + 1)
     mdays = days[:-1]
-    cls = ["family=" + c["family"], "step=%d" % c["step"], "feed=" + c["feed_tz"], "entry=" + c["entry"], "read_hour=%d" % c["read_hour"]]
+    cls = ["family=" + c["family"], "step=%d" % c["step"], "feed=" + c["feed_tz"], "entry=" + c["entry"], "read_hour=%d" % c["read_hour"], "complete-year=%d" % bool(c.get("complete_year"))]
     if c["family"] == "daily":
         meter = pd.Series(rng.integers(1, 100, len(mdays)).astype(float), index=mdays, name="observed")
         for k in c.get("zero_days", ()):
@@ -180,7 +185,7 @@ def judge(c, rec):
         judged += 1
     dst = len(set(t.utcoffset() for t in days)) > 1
     rec.note("days_judged", judged)
-    rec.case(c, bool(partial and low), cls + ["dst=%d" % dst, "partial=%d" % partial, "low=%d" % low, "hook=%d" % (hook is not None)])
+    rec.case(c, bool((partial and low) or (c.get("complete_year") and dst)), cls + ["dst=%d" % dst, "partial=%d" % partial, "low=%d" % low, "hook=%d" % (hook is not None)])
 
 
 def shards(tier, seed):
